@@ -944,7 +944,7 @@ func Run(c *vh.Ctx) {
 		defer m.Close()
 		c.Res.ModelUsed = true
 	}
-	c.Res.Rule = "sequential history: contains at least one defining call and one lookup, distinct op lists; concurrent: distinct (goroutines, calls, GOMAXPROCS, pool, seed, mix) configurations"
+	c.Res.Rule = "sequential history: contains at least one defining call and one lookup, distinct op lists; class-path manager history: at least one AddNamespace and one FindClassFile; concurrent: distinct (goroutines, calls or rounds, GOMAXPROCS, pool / namespaces, seed, mix) configurations of the registry stress and of the resolution streams (find / parse / load / temp / loadshared)"
 	if len(c.ReplayRaw) > 0 {
 		var k struct {
 			Kind string `json:"kind"`
